@@ -4,6 +4,7 @@ import (
 	"fmt"
 	"strings"
 	"sync"
+	"sync/atomic"
 
 	"golang.org/x/crypto/ssh"
 
@@ -26,20 +27,30 @@ const c31F132 = "F132"
 const c31F132Threshold = 18
 
 // c31F132Class reports whether a refpeer-mode plan belongs to the failing
-// class: a peer writer that makes the Go side answer, and at least 18 peer
-// packets that can be in flight ahead of the peer's KEXINIT.
+// class.  All of the following are necessary for the deadlock:
+//   - the Go side can start a key exchange itself (a RekeyThreshold is set:
+//     with the default threshold these small histories never reach it, and in
+//     a peer-initiated exchange the peer's KEXINIT has already been read);
+//   - a peer writer makes the Go side answer (ping -> pong written by the mux
+//     goroutine, global request with want-reply -> Reply by the handler);
+//   - the pending queue can fill and one more write can wait: Go-side
+//     packets plus answers >= maxPendingPackets+1 = 65;
+//   - at least 18 peer packets can be in flight ahead of the peer's KEXINIT.
 func c31F132Class(p *c31Plan) bool {
-	if p.Mode != "refpeer" {
+	if p.Mode != "refpeer" || p.Threshold == 0 {
 		return false
 	}
-	reply, total := false, 0
+	replies, total, goPackets := 0, 0, 0
 	for _, w := range p.PeerWriters {
 		total += w.N
 		if w.Kind == "ping" || w.Kind == "greqr" {
-			reply = true
+			replies += w.N
 		}
 	}
-	return reply && total >= c31F132Threshold
+	for _, w := range p.Writers {
+		goPackets += w.N
+	}
+	return replies > 0 && total >= c31F132Threshold && goPackets+replies >= 65
 }
 
 // c31F132Exclude rewrites a plan of the failing class so that no peer packet
@@ -73,13 +84,11 @@ func c31F132Witness(k int) (deadlock bool, detail string, err error) {
 	}
 	// the peer's second NEWKEYS marks the point where its side of the re-key is through
 	peerNewKeys := make(chan struct{})
-	nOut := 0
+	var nOut atomic.Int32
+	var nkOnce sync.Once
 	onOut := func(seq uint32, p []byte) {
-		if p[0] == refpeer.MsgNewKeys {
-			nOut++
-			if nOut == 2 {
-				close(peerNewKeys)
-			}
+		if p[0] == refpeer.MsgNewKeys && nOut.Add(1) == 2 {
+			nkOnce.Do(func() { close(peerNewKeys) })
 		}
 	}
 	s, e := newSession(sessOpts{GoIsClient: true, Threshold: 256, Seed: 132, Prog: prog, OnIn: onIn, OnOut: onOut})
@@ -173,12 +182,8 @@ func c31F132Witness(k int) (deadlock bool, detail string, err error) {
 	fin.Go(func() { <-writers.doneChan() })
 	r := watch.Wait(fin.doneChan())
 	pongOnce.Do(func() { close(pongEnd) })
-	if r.Verdict != mx.Done && nOut < 2 {
-		// unblock the helper (the dump has been taken; nOut is only written by the blocked peer goroutines)
-		func() {
-			defer func() { recover() }()
-			close(peerNewKeys)
-		}()
+	if r.Verdict != mx.Done {
+		nkOnce.Do(func() { close(peerNewKeys) }) // unblock the helper (the dump has been taken)
 	}
 	switch r.Verdict {
 	case mx.Done:
